@@ -28,6 +28,19 @@ CLAIMED["C10"] = (
     "Decides, for every path of rotation.RotateNodeCredentials, that AuthorizeNode is reached only after DecryptMessage of the request payload succeeded under a record loaded for the identified node, with the decrypted inner request, carrying over that record's state; that the reply is EncryptMessage(FetchNodeCredentials(inner), clone of that record) and encryption never uses a previous key; that AuthorizeNode keeps its refusals; and that nothing else writes storage or node-record fields. Decryption semantics and replay histories are not decided.",
     _T, "DESIGN.md 5/C10")
 
+CLAIMED["C04"] = (
+    "composite-literal / field-flow constraints on x509 templates and response messages + SSA guard-cut reachability on the node side + store-then-no-write ordering",
+    "Decides the binding clauses of honest enrollment for every path: the node leaf template is a non-CA client-auth certificate named by, and certifying, the key derived from the validated request, with the issuing root's validity, minted once per {current,next} loaded root with parent and signer from one SigningParams(); the fetch response is built from the stored record (nonce, bundles, server key), encrypted under it and signed over the carried ciphertext by the current root; the record is not modified after Store; the node accepts a response only after successful decryption under its own key and nonce equality; the server key is 32 checked random bytes. Liveness ('always completes') and AEAD/X25519 semantics are not decided.",
+    _T, "DESIGN.md 5/C04")
+CLAIMED["C12"] = (
+    "must-pass-through (block-avoiding guard-cut) of seal stores per sensitive field + phi-edge feasibility of the stored object + Encrypt/Decrypt AAD agreement tables + who-may-call Storage.Store",
+    "Decides, for every path of the four typed Store methods with a wrapper configured, that each field of a frozen sensitive-field table (with a completeness pass) is replaced by Marshal(Encrypt(field, AAD)) or empty or cleared before Storage.Store, that only a clone is sealed and stored, that Store/Load agree per field on a record-bound AAD and on the sealed set, that Load refuses sealed records without a wrapper, and that nothing else invokes Storage.Store. Three fields are listed known findings (D8a, D8b, D9). AEAD behaviour of the wrapper (wrong wrapper / transplant fails) is not decided.",
+    _T, "DESIGN.md 5/C12")
+CLAIMED["C13"] = (
+    "call-graph-computed target set of storage-reaching callees + per-call-site error-discipline check (guard-cut from the failure edge, tolerated ErrNotFound / reload idioms) + success-implies-Store guard-cut + who-may-Remove",
+    "Decides, for all 40+ call sites that may reach a Storage method in the non-back-end packages, that the error is tested or returned and that no success return is reachable from its failure edge except over errors.Is(ErrNotFound) or a successful reload; that each creator returns a fresh payload successfully only after payload.Store succeeded or WithSkipStorage; that the fetch response comes from a persisted record; that a token is removed before authorising; and that Storage.Remove touches only the loaded token and the roots under reinitialisation. Back-end atomicity and multi-fault sequences are not decided.",
+    _T, "DESIGN.md 5/C13")
+
 _PENDING = "check not built yet in this round (design in DESIGN.md section 5); will be claimed once its rules are exact on the repaired tree"
 for _p in ["C01","C02","C03","C04","C06","C07","C08","C09","C10","C11","C12","C13","C14","C15","C16","C17","C18","C19","C20"]:
     if _p not in CLAIMED:
